@@ -74,9 +74,11 @@ def main(tier):
         total = 0
         classes = {}
         stats = {}
+        samples = []
         for name, module, f, consts in (("tv-dex", "DexTrace", dex_small, dc), ("tv-dexbig", "DexTrace", dex_big, dc), ("tv-swap", "SwapTrace", swp, sc)):
             recs, bad, expl = validate(work, name, module, f, consts, explain=(name != "tv-dexbig"))
             total += len(recs)
+            samples += [x for x in recs if x.get("op") in ("deliver", "cert")][:1]
             ops = {}
             for e in recs:
                 ops[e.get("op") or e["e"]] = ops.get(e.get("op") or e["e"], 0) + 1
@@ -101,7 +103,7 @@ def main(tier):
         coverage = {"states": rd.distinct + rs.distinct, "transitions": rd.generated + rs.generated, "exhaustive": True,
                     "constants": {"Dex": "2 chains, 2 accounts, pool 100, amount 7, withdrawals of 50 / 100 %, 3-4 operations, 5-6 rotations", "Swap": "2 accounts, amounts 3 / 5, 3 orders, 5-6 steps, certificates with two close instructions"},
                     "guards_confirmed_necessary": needed, "traces_validated_against_impl": 3, "trace_lines": total, "trace_lines_accepted": total,
-                    "per_trace": stats, "violation_classes": {k: len(x) for k, x in classes.items()}, "known_findings_reproduced": [k for k, _ in v.known]}
+                    "per_trace": stats, "samples": samples, "violation_classes": {k: len(x) for k, x in classes.items()}, "known_findings_reproduced": [k for k, _ in v.known]}
         vlib.write_evidence(PID, tier, "model_checking", coverage, time.time() - t0, len(v.violations),
                             ["handlers are driven directly on the state machines of two real nodes (not through blocks and certificates); both chains run the root-side entry point HandleDexBatch(isNested=false)",
                              "the provider cap (5000 liquidity providers, eviction), IncludeSameBlockDex and the liveness fallback are not exercised",
